@@ -299,7 +299,9 @@ def parse_hdc(ans, n_dim):
 
 
 def independent_cell_probs(case, desc, fam, axes):
-    """cell probabilities as documented CDF differences, recomputed without the contour code"""
+    """cell probabilities as the documented CDF differences F(x + dx/2) - F(x - dx/2) over the ACTUAL grid
+    cells (dx = spacing of the grid the contour reports), recomputed without the contour code: no division by
+    dx and no multiplication by the nominal deltas, so an inconsistency between the two is visible"""
     n_dim = desc.n_dim
     deltas = case["deltas"] if isinstance(case["deltas"], list) else [case["deltas"]] * n_dim
     shape = [len(a) for a in axes]
@@ -312,11 +314,11 @@ def independent_cell_probs(case, desc, fam, axes):
         if ci is None:
             if fam is not None:
                 d = fam.leaf(i, None)
-                v = (np.asarray(d.cdf(ax + 0.5 * dx)) - np.asarray(d.cdf(ax - 0.5 * dx))) / dx
+                v = (np.asarray(d.cdf(ax + 0.5 * dx)) - np.asarray(d.cdf(ax - 0.5 * dx)))
             else:
                 s, l = desc.s[i].pars[0], desc.l[i].pars[0]
                 F = lambda x: np.where(x - l > 0, (x - l) / ((x - l) + s), 0.0)  # noqa: E731
-                v = (F(ax + 0.5 * dx) - F(ax - 0.5 * dx)) / dx
+                v = (F(ax + 0.5 * dx) - F(ax - 0.5 * dx))
             sh = [1] * n_dim
             sh[i] = len(ax)
             out = out * v.reshape(sh)
@@ -325,11 +327,11 @@ def independent_cell_probs(case, desc, fam, axes):
             for k, g in enumerate(axes[ci]):
                 if fam is not None:
                     d = fam.leaf(i, float(g))
-                    M[k] = (np.asarray(d.cdf(ax + 0.5 * dx)) - np.asarray(d.cdf(ax - 0.5 * dx))) / dx
+                    M[k] = (np.asarray(d.cdf(ax + 0.5 * dx)) - np.asarray(d.cdf(ax - 0.5 * dx)))
                 else:
                     s, l = desc.s[i].value(g), desc.l[i].value(g)
                     F = lambda x: np.where(x - l > 0, (x - l) / ((x - l) + s), 0.0)  # noqa: E731
-                    M[k] = (F(ax + 0.5 * dx) - F(ax - 0.5 * dx)) / dx
+                    M[k] = (F(ax + 0.5 * dx) - F(ax - 0.5 * dx))
             # place (cond, dist) on axes (ci, i) explicitly (einsum-free, independent of reshape tricks)
             idx = [None] * n_dim
             if ci < i:
@@ -340,8 +342,6 @@ def independent_cell_probs(case, desc, fam, axes):
             sh = [1] * n_dim
             sh[a], sh[b] = MM.shape
             out = out * MM.reshape(sh)
-    for d in deltas:
-        out = out * d
     return out
 
 
